@@ -19,8 +19,8 @@
 (***************************************************************************)
 EXTENDS SilkDecCore, Json, IOUtils
 
-VARIABLES cur, seen
-vars == <<cur, seen>>
+VARIABLES cur, seen, last
+vars == <<cur, seen, last>>
 Tr == ndJsonDeserialize(IOEnv.TRACE)
 
 GOf(a) == [fs |-> a[1], nb |-> a[2], sfl |-> a[3], frl |-> a[4], ltp |-> a[5], ord |-> a[6]]
@@ -113,7 +113,34 @@ StepSetFs(e) ==
   /\ Say(changed => (e.nzo = 0 /\ e.nzl = 0 /\ e.lagp = 100 /\ e.ffar = 1 /\ e.ps = 0), "drift", <<"setfsClears", e.nzo, e.nzl, e.lagp, e.ffar, e.ps>>)
   /\ seen' = seen \cup {IF changed THEN (IF pre.fs = 0 THEN "setfs.first" ELSE "setfs.change") ELSE IF pre.frl # post.frl THEN "setfs.framelen" ELSE "setfs.same"}
 
-Init == cur = 1 /\ seen = {}
+\* the twin executions of the previous core / plc event (function level).  tw: the same call on a copy of the state over a
+\* differently filled stack - a different result means an unwritten scratch cell was read (C12: output depends on memory
+\* contents).  tp: the same call on a copy whose exc_Q14 / outBuf cells OUTSIDE the read set rs were flipped - a different result
+\* means the call reads state cells the model does not (drift; rs itself must be the model's read set)
+ModelRs(e) ==
+  IF e.w = "core" /\ last.k = "core"
+  THEN LET g == GOf(last.g)
+           d == [lagPrev |-> last.d[1], lc |-> last.d[2], ps |-> last.d[3]]
+           in == [sig |-> last.sig, pl |-> last.pl, interp |-> last.ip, gch |-> last.gch, ga |-> last.ga]
+           af == CoreAf(g, d, in)
+           lo == IF Len(af) = 0 THEN OUTBUF_LEN ELSE IF Len(af) = 1 THEN af[1][1] ELSE Min2(af[1][1], af[2][1]) IN
+       <<lo, g.ltp - 1>>
+  ELSE IF e.w = "plc" /\ last.k = "plc"
+  THEN LET g == GOf(last.g)
+           reset == last.pre[2] # g.fs
+           p0 == IF reset THEN g.frl * 128 ELSE last.pre[1]
+           pnb == IF reset THEN 2 ELSE last.pre[3]
+           psfl == IF reset THEN 20 ELSE last.pre[4] IN
+       <<(g.nb - 2) * g.sfl, g.nb * g.sfl - 1, RandOff(pnb, psfl, TRUE), RandOff(pnb, psfl, TRUE) + RAND_BUF_SIZE - 1,
+         RandOff(pnb, psfl, FALSE), RandOff(pnb, psfl, FALSE) + RAND_BUF_SIZE - 1, PlcIdx(g, p0), g.ltp - 1>>
+  ELSE <<>>
+StepTwin(e) ==
+  /\ Say(e.rs = ModelRs(e), "drift", <<"readSet", e.w, e.rs, ModelRs(e)>>)
+  /\ Say(e.tw = 0, "C12", <<"stackDependence", e.w, e.tw>>)
+  /\ Say(e.tp = 0, "drift", <<"readOutsideReadSet", e.w, e.tp, e.rs>>)
+  /\ seen' = seen \cup {"twin." \o e.w}
+
+Init == cur = 1 /\ seen = {} /\ last = [k |-> "none"]
 Next ==
   /\ cur <= Len(Tr)
   /\ LET e == Tr[cur] IN
@@ -122,10 +149,11 @@ Next ==
        [] e.k = "cng" -> StepCng(e)
        [] e.k = "df" -> StepDf(e)
        [] e.k = "setfs" -> StepSetFs(e)
-       [] e.k = "twin" -> Say(e.tw = 0, "C12", <<"stackDependence", e.w, e.tw>>) /\ seen' = seen \cup {"twin." \o e.w}
+       [] e.k = "twin" -> StepTwin(e)
        [] e.k = "new" -> seen' = seen \cup {e.w}
        [] OTHER -> UNCHANGED seen
   /\ cur' = cur + 1
+  /\ last' = IF Tr[cur].k \in {"core", "plc"} THEN Tr[cur] ELSE last
 Spec == Init /\ [][Next]_vars
 Done == (cur > Len(Tr)) => PrintT("SEEN " \o ToString(seen))
 =============================================================================
